@@ -1,8 +1,8 @@
-import MgpuProofs.C10Buddy
+import MgpuProofs.C10BuddyFull
 /-!
 # C10 (extension) — the buddy allocator `deviceBuddyMemoryState`: property theorems
 
-Model: `MgpuModel/C10Buddy.lean` (the code as it is, defects included; tied to the real driver by the
+Model: `MgpuModel/C10Buddy.lean` (the code after the repair of `allocateMultiplePages`; tied to the real driver by the
 `c10 buddy …` case lines of `harness/c10_deep.go`). A device of `4096 * 2^F` bytes at any address `base`.
 -/
 namespace C10.Buddy
@@ -55,44 +55,87 @@ theorem buddy_alloc_free_blocks (F base : Nat) (ops : List Op) (h : ops.all Op.i
 example : (runOut (init 0x5000 (4096 * 2 ^ 3)) [.am 3, .pop 2]).2.free = [[], [], [0xb000], []] := by
   decide +kernel
 
-/-- The full statement, frees included: after any legal history (pages are given back only while live, each
-once) no live page lies inside a free block, and the free blocks are pairwise disjoint. FALSE for the code. -/
+/-- The full statement for the code BEFORE the repair of `allocateMultiplePages` (`runLiveOld`: the parent's
+merge bit toggled only `if i == level && i > 0`): after any legal history (pages are given back only while live,
+each once) no live page lies inside a free block, and the free blocks are pairwise disjoint. It was FALSE. -/
+def buddy_disjoint_full_before_fix : Prop :=
+  ∀ (F base : Nat) (ops : List Op),
+    (runLiveOld (init base (4096 * 2 ^ F)) [] ops).legal = true →
+    NoLiveInFree (runLiveOld (init base (4096 * 2 ^ F)) [] ops).st (runLiveOld (init base (4096 * 2 ^ F)) [] ops).live ∧
+    FreeDisjoint (runLiveOld (init base (4096 * 2 ^ F)) [] ops).st
+
+/-- Witness (was reproduced on the real driver, devices of 4, 8, 16, 64 pages): three 1-page allocations, then
+the third page is freed — the third allocation took the 2-page block off its free list without toggling the
+merge bit of its parent, so `freeBlock` merged up to level 0 and put the WHOLE device on the free list while
+two pages were live. -/
+theorem buddy_disjoint_full_before_fix_refuted : ¬ buddy_disjoint_full_before_fix := by
+  intro h
+  have := h 2 0x5000 [.pop 1, .pop 1, .pop 1, .add [0x7000]]
+  revert this
+  decide +kernel
+
+/-- the state after the witness history, old and repaired code: before the repair the whole 4-page device was
+one free block while 0x5000 and 0x6000 were live; now the freed page merges with its buddy only -/
+example : (runLiveOld (init 0x5000 (4096 * 2 ^ 2)) [] [.pop 1, .pop 1, .pop 1, .add [0x7000]]).live = [0x5000, 0x6000] ∧
+    (runLiveOld (init 0x5000 (4096 * 2 ^ 2)) [] [.pop 1, .pop 1, .pop 1, .add [0x7000]]).st.free = [[0x5000], [], []] ∧
+    (runLive (init 0x5000 (4096 * 2 ^ 2)) [] [.pop 1, .pop 1, .pop 1, .add [0x7000]]).st.free = [[], [0x7000], []] := by
+  decide +kernel
+
+/-- Second witness for the old code (was reproduced on the real driver, 4–64 pages): alloc, alloc, alloc, free the
+1st, free the 3rd — the legal history ended with OVERLAPPING free blocks (the whole device at level 0 and page
+`base` again at the finest level), and the live page 0x6000 inside a free block. -/
+theorem buddy_free_blocks_overlap_before_fix_witness :
+    (runLiveOld (init 0x5000 (4096 * 2 ^ 3)) [] [.pop 1, .pop 1, .pop 1, .add [0x5000], .add [0x7000]]).legal = true ∧
+    ¬ FreeDisjoint (runLiveOld (init 0x5000 (4096 * 2 ^ 3)) [] [.pop 1, .pop 1, .pop 1, .add [0x5000], .add [0x7000]]).st ∧
+    ¬ NoLiveInFree (runLiveOld (init 0x5000 (4096 * 2 ^ 3)) [] [.pop 1, .pop 1, .pop 1, .add [0x5000], .add [0x7000]]).st
+        (runLiveOld (init 0x5000 (4096 * 2 ^ 3)) [] [.pop 1, .pop 1, .pop 1, .add [0x5000], .add [0x7000]]).live := by
+  decide +kernel
+
+example : (runLiveOld (init 0x5000 (4096 * 2 ^ 3)) [] [.pop 1, .pop 1, .pop 1, .add [0x5000], .add [0x7000]]).st.free =
+    [[0x5000], [], [], [0x5000]] ∧
+    (runLive (init 0x5000 (4096 * 2 ^ 3)) [] [.pop 1, .pop 1, .pop 1, .add [0x5000], .add [0x7000]]).st.free =
+    [[], [0x9000], [0x7000], [0x5000]] := by
+  decide +kernel
+
+/-- **The full statement, frees included, for the repaired code** (`runLive`: `allocateMultiplePages` toggles the
+parent's merge bit whenever a block leaves a free list, `if i > 0`). On a device of `4096 * 2^F` bytes at `base`
+(any `F`, any `base`), after ANY history of `Device.allocatePage` bursts (`pop k`), `allocateMultiplePages(n)`
+(`am n`) and frees (`add ps` = `addSinglePAddr` of each page: tracker count, `freeBlock`, `levelOfBlock`, buddy
+merging) in which pages are given back only while live, each once — up to the first fault —
+* no live page lies inside a block that is on a free list (so it cannot be handed out again), and
+* every free list is duplicate-free and the free blocks `[a, a + size/2^l)` are pairwise disjoint. -/
 def buddy_disjoint_full : Prop :=
   ∀ (F base : Nat) (ops : List Op),
     (runLive (init base (4096 * 2 ^ F)) [] ops).legal = true →
     NoLiveInFree (runLive (init base (4096 * 2 ^ F)) [] ops).st (runLive (init base (4096 * 2 ^ F)) [] ops).live ∧
     FreeDisjoint (runLive (init base (4096 * 2 ^ F)) [] ops).st
 
-/-- Witness (reproduced on the real driver, devices of 4, 8, 16, 64 pages): three 1-page allocations, then
-the third page is freed — `freeBlock` merges up to level 0 and puts the WHOLE device on the free list while
-two pages are live. -/
-theorem buddy_disjoint_full_refuted : ¬ buddy_disjoint_full := by
-  intro h
-  have := h 2 0x5000 [.pop 1, .pop 1, .pop 1, .add [0x7000]]
-  revert this
+/-- Proof: the tree invariant `FInv` of `MgpuProofs/C10BuddyFull*.lean` (free ⇒ exists ∧ not split; split ⇒ exists;
+merge bit ⇔ split ∧ exactly one child free; every tracked page lies in a used block whose tracker counts it) is
+kept by `allocMulti`, `addSingle`/`freeBlock` and hence by every history (`finv_runLive`); two existing
+non-split blocks never overlap (`leaf_overlap`). No overflow hypothesis is needed: `usub` is only applied to
+addresses `≥ base`. (`runLive` stops at the first illegal `add` with the state before it, so the conclusion holds
+for that state as well: `runLive_safe`.) -/
+theorem buddy_disjoint_full_holds : buddy_disjoint_full :=
+  fun F base ops _ => runLive_safe F base ops
+
+/-- non-vacuity: a legal history with frees on an 8-page device at 0x5000 — two single pages, a 2-page block, one
+page of it given back (the block stays allocated), one more page, then the first two pages given back: they merge
+into the 2-page block 0x5000; 0x8000 and 0x9000 stay live -/
+example :
+    (runLive (init 0x5000 (4096 * 2 ^ 3)) []
+      [.pop 1, .pop 1, .am 2, .add [0x7000], .pop 1, .add [0x5000, 0x6000]]).legal = true ∧
+    (runLive (init 0x5000 (4096 * 2 ^ 3)) []
+      [.pop 1, .pop 1, .am 2, .add [0x7000], .pop 1, .add [0x5000, 0x6000]]).live = [0x8000, 0x9000] ∧
+    (runLive (init 0x5000 (4096 * 2 ^ 3)) []
+      [.pop 1, .pop 1, .am 2, .add [0x7000], .pop 1, .add [0x5000, 0x6000]]).st.free =
+        [[], [], [0xb000, 0x5000], [0xa000]] ∧
+    (runLive (init 0x5000 (4096 * 2 ^ 3)) []
+      [.pop 1, .pop 1, .am 2, .add [0x7000], .pop 1, .add [0x5000, 0x6000], .add [0x8000, 0x9000]]).st.free =
+        [[0x5000], [], [], []] := by
   decide +kernel
 
-/-- the state after the witness history: the whole 4-page device is one free block, 0x5000 and 0x6000 are live -/
-example : (runLive (init 0x5000 (4096 * 2 ^ 2)) [] [.pop 1, .pop 1, .pop 1, .add [0x7000]]).live = [0x5000, 0x6000] ∧
-    (runLive (init 0x5000 (4096 * 2 ^ 2)) [] [.pop 1, .pop 1, .pop 1, .add [0x7000]]).st.free = [[0x5000], [], []] := by
-  decide +kernel
-
-/-- Second witness (reproduced on the real driver, 4–64 pages): alloc, alloc, alloc, free the 1st, free the
-3rd — the legal history ends with OVERLAPPING free blocks (the whole device at level 0 and page `base` again
-at the finest level), and the live page 0x6000 inside a free block. -/
-theorem buddy_free_blocks_overlap_witness :
-    (runLive (init 0x5000 (4096 * 2 ^ 3)) [] [.pop 1, .pop 1, .pop 1, .add [0x5000], .add [0x7000]]).legal = true ∧
-    ¬ FreeDisjoint (runLive (init 0x5000 (4096 * 2 ^ 3)) [] [.pop 1, .pop 1, .pop 1, .add [0x5000], .add [0x7000]]).st ∧
-    ¬ NoLiveInFree (runLive (init 0x5000 (4096 * 2 ^ 3)) [] [.pop 1, .pop 1, .pop 1, .add [0x5000], .add [0x7000]]).st
-        (runLive (init 0x5000 (4096 * 2 ^ 3)) [] [.pop 1, .pop 1, .pop 1, .add [0x5000], .add [0x7000]]).live := by
-  decide +kernel
-
-example : (runLive (init 0x5000 (4096 * 2 ^ 3)) [] [.pop 1, .pop 1, .pop 1, .add [0x5000], .add [0x7000]]).st.free =
-    [[0x5000], [], [], [0x5000]] := by
-  decide +kernel
-
-/-- **The strongest true part of `buddy_disjoint_full`**: its conclusion holds for every allocation-only
-history (any `F`, `base`, requests). The defects need an `addSinglePAddr` (freeBlock's merge bookkeeping). -/
+/-- the allocation-only instance (proved before the repair; it needs no `addSinglePAddr`) -/
 theorem buddy_disjoint_partial (F base : Nat) (ops : List Op) (h : ops.all Op.isAlloc = true) :
     (runLive (init base (4096 * 2 ^ F)) [] ops).legal = true ∧
     NoLiveInFree (runLive (init base (4096 * 2 ^ F)) [] ops).st (runLive (init base (4096 * 2 ^ F)) [] ops).live ∧
